@@ -33,9 +33,21 @@ func isMissingError(err error) bool {
 	return false
 }
 
+func isExpectedObjectError(err error) bool {
+	switch v := err.(type) {
+	case Error:
+		return v.Reason() == ErrExpectedObject
+	}
+	return false
+}
+
+// criticalResolveError reports whether a failed lookup of a reference in the
+// configuration trees ends the search. A name that is missing, cyclic, or
+// leads through a setting that is no object is not defined by the trees: the
+// resolvers are asked next.
 func criticalResolveError(err error) bool {
 	if err == nil {
 		return false
 	}
-	return !(isCyclicError(err) || isMissingError(err))
+	return !(isCyclicError(err) || isMissingError(err) || isExpectedObjectError(err))
 }
